@@ -118,6 +118,8 @@ const (
 	hostBoth      = "both.sso.test"
 	hostOther     = "other.sso.test"
 	hostGroup2    = "group2.sso.test" // a second group-only upstream with a different group (concurrent-pairs leg)
+	hostAddr      = "addr.sso.test"   // an e-mail policy written as one listed ADDRESS instead of a domain
+	listedAddr    = "sam.kirk@allowed.test"
 	allowedGroup2 = "ops"
 	slug          = "idp"
 	allowedDomain = "allowed.test"
@@ -168,13 +170,15 @@ func NewWorld() (*World, error) {
 func NewWorldProvider(providerURL, providerInt string) (*World, error) {
 	w := &World{Backs: map[string]*world.Backend{}}
 	var y strings.Builder
-	for _, h := range []string{hostEmail, hostGroup, hostBoth, hostOther, hostGroup2} {
+	for _, h := range []string{hostEmail, hostGroup, hostBoth, hostOther, hostGroup2, hostAddr} {
 		b := world.NewBackend(h)
 		w.Backs[h] = b
 		fmt.Fprintf(&y, "- service: %s\n  default:\n    from: %s\n    to: %s\n    options:%s\n", strings.Split(h, ".")[0], h, b.Addr(), skipRegexYAML)
 		switch h {
 		case hostEmail, hostOther:
 			fmt.Fprintf(&y, "      allowed_email_domains:\n        - %s\n", allowedDomain)
+		case hostAddr:
+			fmt.Fprintf(&y, "      allowed_email_addresses:\n        - %s\n", listedAddr)
 		case hostGroup:
 			fmt.Fprintf(&y, "      allowed_groups:\n        - %s\n", allowedGroup)
 		case hostGroup2:
@@ -248,7 +252,29 @@ func GraceUnits(now, start time.Time) int {
 }
 
 var matchEmails = []string{"user@allowed.test", "User@Allowed.Test", "a.b+c@ALLOWED.TEST", "x@allowed.test"}
-var nomatchEmails = []string{"user@evil.test", "user@allowed.test.evil.test", "user@notallowed.test", "user@xallowed.test", "allowed.test@evil.test", "user@allowed.tes"}
+var nomatchEmails = []string{"user@evil.test", "user@allowed.test.evil.test", "user@notallowed.test", "user@xallowed.test", "allowed.test@evil.test", "user@allowed.tes",
+	"user@allowed.te\u017ft", "u\u017fer@allowed.te\u017ft"} // (the long s folds to s under Unicode case folding: another domain all the same)
+
+// the listed address in other spellings / other mailboxes that look like it. The long s (U+017F) folds to s under Unicode
+// case folding but is another letter (only a compatibility variant): another mailbox. (The Kelvin sign U+212A is NOT
+// used: it is canonically equivalent to K, Go lower-cases it to k, and today's validators accept it - rightly.)
+var matchAddrs = []string{listedAddr, "Sam.Kirk@Allowed.Test", "SAM.KIRK@ALLOWED.TEST", "sam.kirk@ALLOWED.test"}
+var nomatchAddrs = []string{"\u017fam.kirk@allowed.test", "\u017fam.kirk@allowed.te\u017ft", "user@allowed.test", "xsam.kirk@allowed.test",
+	"sam.kirk@allowed.test.evil.test", "sam.kirk@evil.test", "sam.kir@allowed.test", "sam.kirk@allowed.test "}
+
+// ClassifyEmailFor is ClassifyEmail under the policy of the upstream behind host.
+func ClassifyEmailFor(host, e string) string {
+	if host != hostAddr {
+		return ClassifyEmail(e)
+	}
+	if e == "" {
+		return "empty"
+	}
+	if asciiLower(e) == listedAddr {
+		return "match"
+	}
+	return "nomatch"
+}
 
 // ClassifyEmail is the inverse of the email concretisation (independent of the validators).
 func ClassifyEmail(e string) string {
@@ -256,10 +282,21 @@ func ClassifyEmail(e string) string {
 		return "empty"
 	}
 	i := strings.LastIndex(e, "@")
-	if i >= 0 && strings.EqualFold(e[i+1:], allowedDomain) {
+	if i >= 0 && asciiLower(e[i+1:]) == allowedDomain {
 		return "match"
 	}
 	return "nomatch"
+}
+
+// asciiLower lowers A-Z only (domain names are compared ASCII-case-insensitively; no other code point equals a letter).
+func asciiLower(s string) string {
+	b := []byte(s)
+	for i, c := range b {
+		if c >= 'A' && c <= 'Z' {
+			b[i] = c + ('a' - 'A')
+		}
+	}
+	return string(b)
 }
 
 // Session builds a concrete session for an abstract cookie of kind "sess".
@@ -293,10 +330,14 @@ func Session(c Cookie, host string, now time.Time, r *rand.Rand) *sessions.Sessi
 			s.GracePeriodStart = s.GracePeriodStart.Add(-time.Duration(r.Intn(3)) * world.U)
 		}
 	}
-	switch c.Email {
-	case "match":
+	switch {
+	case c.Email == "match" && host == hostAddr:
+		s.Email = matchAddrs[r.Intn(len(matchAddrs))]
+	case c.Email == "nomatch" && host == hostAddr:
+		s.Email = nomatchAddrs[r.Intn(len(nomatchAddrs))]
+	case c.Email == "match":
 		s.Email = matchEmails[r.Intn(len(matchEmails))]
-	case "nomatch":
+	case c.Email == "nomatch":
 		s.Email = nomatchEmails[r.Intn(len(nomatchEmails))]
 	}
 	s.User = strings.ToLower(strings.Split(s.Email, "@")[0])
@@ -326,7 +367,7 @@ func Project(s *sessions.SessionState, host string, now time.Time) Cookie {
 	}
 	return Cookie{Kind: "sess", SlugOk: s.ProviderSlug == slug, HostOk: s.AuthorizedUpstream == host,
 		Life: RemUnits(now, s.LifetimeDeadline), Ref: RemUnits(now, s.RefreshDeadline), Val: RemUnits(now, s.ValidDeadline),
-		Grace: GraceUnits(now, s.GracePeriodStart), Email: ClassifyEmail(s.Email), RT: s.RefreshToken != "", Tok: tok, Grp: grp}
+		Grace: GraceUnits(now, s.GracePeriodStart), Email: ClassifyEmailFor(host, s.Email), RT: s.RefreshToken != "", Tok: tok, Grp: grp}
 }
 
 // garbage cookie values: the mutation classes of Sealed.tla applied to a genuine value.
